@@ -89,6 +89,7 @@ class Evaluator:
         self.store_accept = store_accept or (lambda name, idx, node: False)
         self.stores = []  # (name, idxtext, value, node)
         self.returns = []
+        self.done = False   # a `return` on the path taken has been reached
         self.erase_subscripts = erase_subscripts
 
     # ---------------------------------------------------------------- expr
@@ -214,9 +215,13 @@ class Evaluator:
     # ---------------------------------------------------------------- stmts
     def run(self, stmts):
         for st in stmts:
+            if self.done:
+                break
             self.stmt(st)
 
     def stmt(self, st):
+        if self.done:
+            return
         if isinstance(st, ast.Assign):
             v = self.ev(st.value)
             for t in st.targets:
@@ -252,6 +257,7 @@ class Evaluator:
                     self.env[n] = Unknown(f"assigned inside {type(st).__name__}")
         elif isinstance(st, ast.Return):
             self.returns.append((self.ev(st.value) if st.value is not None else None, st))
+            self.done = True
         # Expr, Raise, Pass, Assert, Import...: no effect on formulas
 
     def _assign(self, target, v, st, aug=False):
